@@ -167,7 +167,7 @@ def show_resp(r) -> str:
         D = list(Days)
         rows = []
         for sch in sorted(r.schedules, key=lambda x: int(x.schedule_id)):
-            days = ",".join(str(i) for i in sorted(D.index(d) for d in sch.days)) or "-"
+            days = "+".join(str(i) for i in sorted(D.index(d) for d in sch.days)) or "-"
             rows.append(f"{sch.schedule_id},{int(sch.recurring)},{days},{sch.start_time},{sch.end_time},{sch.duration},{C.ut(sch.display)}")
         return "schedules " + (";".join(rows) if rows else "-")
     if isinstance(r, M.SwitcherLoginResponse):
